@@ -91,6 +91,7 @@ type vkKernel struct {
 	onWait        func(epfd int) bool // sequential poller driving: environment steps; false = stop
 	syscalls      int
 	emptyReads    int // reads that returned EAGAIN
+	waiting       int // pollers blocked in epoll_wait
 	log           []string
 }
 
@@ -489,14 +490,22 @@ func (k *vkKernel) collect(epfd int, events []syscall.EpollEvent) int {
 
 func vk_EpollWait(epfd int, events []syscall.EpollEvent, msec int) (int, error) {
 	vk.syscalls++
-	for {
-		if vk.anyPending(epfd) {
-			return vk.collect(epfd, events), nil
-		}
-		if vk.onWait == nil || !vk.onWait(epfd) {
-			return 0, nil
+	if vk.onWait != nil {
+		// sequential driving: the environment acts while the poller waits
+		for {
+			if vk.anyPending(epfd) {
+				return vk.collect(epfd, events), nil
+			}
+			if !vk.onWait(epfd) {
+				return 0, nil
+			}
 		}
 	}
+	// threaded driving: block until something is reportable
+	vk.waiting++
+	verifBlockUntil(func() bool { return vk.anyPending(epfd) })
+	vk.waiting--
+	return vk.collect(epfd, events), nil
 }
 
 // ---- environment steps on sockets
